@@ -249,15 +249,15 @@ func Vals(t reflect.Type, n int) []reflect.Value {
 	var out []reflect.Value
 	switch t {
 	case i32T:
-		for _, v := range []int32{1, 2, -3} {
+		for _, v := range []int32{1, 0, -3} { // 0 is the default "no value" answer: storing it is legal
 			out = append(out, reflect.ValueOf(v))
 		}
 	case i64T:
-		for _, v := range []int64{1, 2, -3} {
+		for _, v := range []int64{1, 0, -3} {
 			out = append(out, reflect.ValueOf(v))
 		}
 	case f32T:
-		for _, v := range []float32{1.5, 2.5, -3} {
+		for _, v := range []float32{1.5, 0, -3} {
 			out = append(out, reflect.ValueOf(v))
 		}
 	case ifaceT:
